@@ -3,7 +3,7 @@
    own class) and variables (latest assignment) are definitional in any reference model and are exercised end to
    end, as are declared return types.  Proofs in InferP.v. *)
 From RT Require Import Model.Infer Proofs.InferP.
-From RT Require Import Model.ExecType Proofs.ExecTypeP.
+From RT Require Import Model.ExecType Proofs.ExecTypeP Model.CondReturn.
 
 (* a hash lookup with a literal key has the type stored last under that key, for every hash built by a literal and
    by h[k] = v in any order, and for every stored type — NilClass included *)
@@ -60,6 +60,31 @@ Theorem C09_return_union : forall recv blk args ret, String.eqb (t_meth ret) "ne
   ExecType recv args blk ret = MakeUnifiedT (map (exec_type (ty_size ret) recv args blk) (t_vars ret)).
 Proof. exact resolve_union. Qed.
 Print Assumptions C09_return_union.
+
+(* conditional return types (`is_conditional`): with an optional first parameter the alternative is chosen by the number of
+   arguments that are not blocks — `arr.last` gets the first alternative, `arr.last(2)` the second; None is the Go code
+   indexing past the alternatives (the tie checks the panic too) *)
+Theorem C09_conditional_return_by_count : forall d rest ret args whole, has_default d = true ->
+  cond_return (d :: rest) ret args whole = nth_error (t_vars ret) (List.length (non_block args)).
+Proof. intros d rest ret args whole H. unfold cond_return. cbn [cond_return_from]. rewrite H. reflexivity. Qed.
+Print Assumptions C09_conditional_return_by_count.
+
+(* a plain parameter: the alternative has the index of the first argument of the parameter's kind (or of any kind, when one
+   of the two is untyped); no such argument and no further parameter: the declared type itself *)
+Theorem C09_conditional_return_by_kind : forall d ret args whole, has_default d = false -> is_union_type d = false ->
+  cond_return [d] ret args whole =
+  match find_index (same_or_any d) args 0 with Some idx => nth_error (t_vars ret) idx | None => Some whole end.
+Proof. intros d ret args whole H1 H2. unfold cond_return. cbn [cond_return_from]. rewrite H1, H2. destruct (find_index _ args 0); reflexivity. Qed.
+Print Assumptions C09_conditional_return_by_kind.
+
+Example C09_conditional_return_example :
+  let opt := set_hd MakeAnyInt true in
+  let O := NewT "OptiionalUnify" OPTIONAL_UNIFY (VStr "optionalUnify") in
+  let S := NewT "Self" SELF (VStr "self") in
+  let recv := MakeArray [MakeIntLit; MakeString "s"] in
+  let pick args := match cond_return [opt] (MakeUnion [O; S]) args (MakeUnion [O; S]) with Some t => TypeToString (ExecType recv args zero_ty t) | None => "panic" end in
+  (pick [], pick [MakeIntLit], pick [MakeIntLit; MakeIntLit]) = ("Union<Integer String NilClass>", "Array<Integer String>", "panic").
+Proof. vm_compute. reflexivity. Qed.
 
 Example C09_return_example :
   let recv := MakeArray [MakeIntLit; MakeString "s"] in
